@@ -48,6 +48,8 @@
 #include <dbus/dbus-hash.h>
 #include <dbus/dbus-mainloop.h>
 #include <dbus/dbus-message-internal.h>
+#define DBUS_CAN_USE_DBUS_STRING_PRIVATE 1   /* the DBusString leg reads real->len and real->allocated */
+#include <dbus/dbus-string-private.h>
 #include "bus.h"
 #include "connection.h"
 #include "services.h"
@@ -134,6 +136,7 @@ dbus_bool_t _dbus_decrement_fail_alloc_counter (void)
 
 static void die (const char *m) { fprintf (stderr, "oom_h: %s\n", m); fflush (stderr); _exit (3); }
 
+static int max_conns_per_user = 256;
 static void write_cfg (int maxnames, int maxrules, int maxreplies)
 {
   FILE *f = fopen (cfg_path, "w");
@@ -144,7 +147,8 @@ static void write_cfg (int maxnames, int maxrules, int maxreplies)
            " <limit name=\"max_names_per_connection\">%d</limit>\n"
            " <limit name=\"max_match_rules_per_connection\">%d</limit>\n"
            " <limit name=\"max_replies_per_connection\">%d</limit>\n"
-           "</busconfig>\n", pipe_name, maxnames, maxrules, maxreplies);
+           " <limit name=\"max_connections_per_user\">%d</limit>\n"
+           "</busconfig>\n", pipe_name, maxnames, maxrules, maxreplies, max_conns_per_user);
   fclose (f);
 }
 
@@ -618,7 +622,8 @@ static void bus_case (char **tok, int ntok, Buf *res)
   long unfailed_allocs = -1;
   int lsan_hits = 0;
   char errpath[128];
-  sscanf (tok[2], "%d,%d,%d", &lim[0], &lim[1], &lim[2]);
+  max_conns_per_user = 256;
+  sscanf (tok[2], "%d,%d,%d,%d", &lim[0], &lim[1], &lim[2], &max_conns_per_user);
   write_cfg (lim[0], lim[1], lim[2]);
   nprobes = 0; nnames = 0;
   if (strcmp (tok[3], "-") != 0)
@@ -935,6 +940,90 @@ static void lib_case (char **tok, int ntok, Buf *res)
   bput (res, " ## end k=%d lsan=%d", k + 1, __lsan_do_recoverable_leak_check () ? 1 : 0);
 }
 
+
+/* ---- DBusString leg ------------------------------------------------------------------------------
+   str <cap> <op> ... -- <op>
+     a string from _dbus_string_init_preallocated (cap), the history ops applied with injection
+     off, then the operation under test with its k-th allocation failing, k = 0, 1, ... (fresh
+     string + history for every k).  ops:
+       L<n> lengthen   H<n> shorten   T<n> set_length   I<at>,<n>,<byte> insert_bytes   B<at>,<byte> insert_byte
+       A<a> align_length   N<at>,<hex> insert_2/4/8_aligned   G<at>,<a> insert_alignment   S<n> alloc_space
+       P<hex> append_len   Y<byte> append_byte   D<start>,<len> delete
+       C<srchex>,<start>,<len>,<at> copy_len   R<srchex>,<start>,<len>,<at>,<rlen> replace_len
+   result: base=<len>|<allocated>|<hex> ## <n>*f<failed>|<ok>|<len>|<allocated>|<hex of the contents> ## ... ## end allocs=<allocations of the unfailed op> */
+static dbus_bool_t str_apply (DBusString *s, const char *op)
+{
+  char buf[8192]; char *f[6] = { 0 }; int nf = 0; char *p; int n; dbus_bool_t ok = TRUE;
+  strncpy (buf, op + 1, sizeof buf - 1); buf[sizeof buf - 1] = 0;
+  for (p = strtok (buf, ","); p && nf < 6; p = strtok (NULL, ",")) f[nf++] = p;
+  switch (op[0])
+    {
+    case 'L': ok = _dbus_string_lengthen (s, atoi (f[0])); break;
+    case 'H': _dbus_string_shorten (s, atoi (f[0])); break;
+    case 'T': ok = _dbus_string_set_length (s, atoi (f[0])); break;
+    case 'I': ok = _dbus_string_insert_bytes (s, atoi (f[0]), atoi (f[1]), (unsigned char) atoi (f[2])); break;
+    case 'B': ok = _dbus_string_insert_byte (s, atoi (f[0]), (unsigned char) atoi (f[1])); break;
+    case 'A': ok = _dbus_string_align_length (s, atoi (f[0])); break;
+    case 'N': { unsigned char *o = unhex (f[1], &n);
+        ok = n == 2 ? _dbus_string_insert_2_aligned (s, atoi (f[0]), o) : n == 4 ? _dbus_string_insert_4_aligned (s, atoi (f[0]), o) : _dbus_string_insert_8_aligned (s, atoi (f[0]), o);
+        free (o); break; }
+    case 'G': { int at = atoi (f[0]); ok = _dbus_string_insert_alignment (s, &at, atoi (f[1])); break; }
+    case 'S': ok = _dbus_string_alloc_space (s, atoi (f[0])); break;
+    case 'P': { unsigned char *o = unhex (f[0], &n); ok = _dbus_string_append_len (s, (const char *) o, n); free (o); break; }
+    case 'Y': ok = _dbus_string_append_byte (s, (unsigned char) atoi (f[0])); break;
+    case 'D': _dbus_string_delete (s, atoi (f[0]), atoi (f[1])); break;
+    case 'C': case 'R':
+      { unsigned char *o = unhex (f[0], &n); DBusString src; _dbus_string_init_const_len (&src, (const char *) o, n);
+        if (op[0] == 'C') ok = _dbus_string_copy_len (&src, atoi (f[1]), atoi (f[2]), s, atoi (f[3]));
+        else ok = _dbus_string_replace_len (&src, atoi (f[1]), atoi (f[2]), s, atoi (f[3]), atoi (f[4]));
+        free (o); break; }
+    default: die ("bad str op");
+    }
+  return ok;
+}
+
+static void str_case (char **tok, int ntok, Buf *res)
+{
+  int cap = atoi (tok[1]), sep = -1, i, k, run = 0, first = 1; long unfailed = -1;
+  Buf cur = { NULL, 0, 0 }, prev = { NULL, 0, 0 };
+  for (i = 2; i < ntok; i++) if (strcmp (tok[i], "--") == 0) { sep = i; break; }
+  if (sep < 0 || sep + 1 >= ntok) die ("str: no -- <op>");
+  breset (&cur); breset (&prev);
+  for (k = 0; k < 64; k++)
+    {
+      DBusString s; DBusRealString *real = (DBusRealString *) &s; dbus_bool_t ok; int failed; const unsigned char *d; int j;
+      if (!_dbus_string_init_preallocated (&s, cap)) die ("oom");
+      for (i = 2; i < sep; i++) if (!str_apply (&s, tok[i])) die ("history op failed");
+      if (k == 0)
+        {
+          d = (const unsigned char *) _dbus_string_get_const_data (&s);
+          bput (res, "base=%d|%d|", real->len, real->allocated);
+          if (real->len == 0) bput (res, "-");
+          for (j = 0; j < real->len; j++) bput (res, "%02x", d[j]);
+          first = 0;
+        }
+      alloc_seen = 0;
+      _dbus_set_fail_alloc_counter (k);
+      ok = str_apply (&s, tok[sep + 1]);
+      failed = _dbus_get_fail_alloc_counter () > k;
+      _dbus_set_fail_alloc_counter (_DBUS_INT_MAX);
+      if (!failed) unfailed = alloc_seen;
+      breset (&cur);
+      bput (&cur, "f%d|%d|%d|%d|", failed, ok ? 1 : 0, real->len, real->allocated);
+      d = (const unsigned char *) _dbus_string_get_const_data (&s);
+      if (real->len == 0) bput (&cur, "-");
+      for (j = 0; j < real->len; j++) bput (&cur, "%02x", d[j]);
+      _dbus_string_free (&s);
+      if (strcmp (cur.b, prev.b) == 0) run++;
+      else { if (run > 0) { bput (res, "%s%d*%s", first ? "" : " ## ", run, prev.b); first = 0; } breset (&prev); bput (&prev, "%s", cur.b); run = 1; }
+      if (!failed) break;
+    }
+  if (run > 0) bput (res, "%s%d*%s", first ? "" : " ## ", run, prev.b);
+  dbus_shutdown ();
+  bput (res, " ## end allocs=%ld leak=%d", unfailed, _dbus_get_malloc_blocks_outstanding ());
+  free (cur.b); free (prev.b);
+}
+
 int main (void)
 {
   static char line[1 << 16];
@@ -952,6 +1041,7 @@ int main (void)
       for (p = strtok (line, " "); p && ntok < 256; p = strtok (NULL, " ")) tok[ntok++] = p;
       if (ntok >= 6 && strcmp (tok[0], "bus") == 0) bus_case (tok, ntok, &res);
       else if (ntok >= 3 && strcmp (tok[0], "lib") == 0) lib_case (tok, ntok, &res);
+      else if (ntok >= 4 && strcmp (tok[0], "str") == 0) str_case (tok, ntok, &res);
       else bput (&res, "?");
       puts (res.b);
       fflush (stdout);
